@@ -122,6 +122,19 @@ pub fn stream_lzma2(k: usize, extra: usize, flush_every: usize, incompressible: 
     (comp, input)
 }
 
+/// Two independent units of highly compressible data (period-48 text), so that the whole stream is only a few dozen
+/// bytes per unit: the base of the C09 single-fault mutant family.
+pub fn stream_lzma2_small(units: usize) -> (Vec<u8>, Vec<u8>) {
+    let pat = text_input(48, 3);
+    let input: Vec<u8> = pat.iter().cycle().take(units * UNIT).copied().collect();
+    let mut w = LZMA2Writer::new(Vec::new(), lzma2_opts(UNIT as u64));
+    for u in input.chunks(UNIT) {
+        w.write_all(u).unwrap();
+        w.flush().unwrap();
+    }
+    (w.finish().unwrap(), input)
+}
+
 /// Stream written by the real single-threaded writer from a pattern: one entry per unit, each a list of
 /// (incompressible?, length) segments that are written and flushed one by one, so that a unit holds a chosen
 /// sequence of chunk kinds (uncompressed / LZMA with and without state or property resets). The segment lengths
@@ -384,6 +397,9 @@ pub struct Scenario {
     pub units: u64,
     /// the stream is damaged/truncated/unterminated: the caller must see an error
     pub must_err: bool,
+    /// the stream is a single-fault mutant of a valid stream (C09 input dimension): the oracle is agreement with the
+    /// single-threaded reader on the same bytes; the per-scenario evidence is aggregated per family
+    pub mutant: bool,
 }
 
 impl Scenario {
